@@ -157,6 +157,7 @@ def deferred_method(eng, d, attr, args, kwargs, fr, node):
         return VNONE
     if attr in ('addCallback', 'addErrback', 'addBoth', 'addCallbacks', 'addTimeout'):
         # registering on a fired Deferred runs the callable now
+        eng.B.checkpoint(eng, 'call:%s#%d' % (attr, site_ordinal(eng, node, attr)))
         if attr == 'addCallbacks' and (len(args) < 2):
             args = [kwargs.get('callback', args[0] if args else None), kwargs.get('errback')] 
         called = H.heap_read(eng, d, 'called')
